@@ -365,3 +365,119 @@ Fixpoint is_prefix (a b : list N) : bool :=
   | x :: a', y :: b' => (x =? y) && is_prefix a' b'
   | _, _ => false
   end.
+
+(* ---------------------------------------------------------------------------------------- *)
+(* ORACLES for the send side: only the reference grammar is applied to what the implementation
+   wrote. *)
+
+(* one frame through Codec over a transport that accepts everything *)
+Definition oracle_serialize (c : N * frame * option (list N)) : bool :=
+  let '(max, f, impl) := c in
+  match impl with
+  | Some bs =>
+      match rfc_decode_stream max bs with
+      | Some [w] =>
+          all_payloads_le max bs &&
+          match w, wire_value_of f with
+          | WData s e p d, WData s' e' p' d' => (s =? s') && Bool.eqb e e' && opt_N_eqb p p' && list_N_eqb d d'
+          | WHeaders s e h p b, WHeaders s' e' h' p' b' =>
+              (s =? s') && Bool.eqb e e' && Bool.eqb h h' && list_N_eqb b b'
+              && match p, p' with None, None => true | _, _ => false end
+          | WPushPromise s h pr b, WPushPromise s' h' pr' b' =>
+              (s =? s') && Bool.eqb h h' && (pr =? pr') && list_N_eqb b b'
+          | WSettings a ps, WSettings a' ps' =>
+              Bool.eqb a a' && list_N_eqb (flat_map (fun p => [fst p; snd p]) ps) (flat_map (fun p => [fst p; snd p]) ps')
+          | WPing a o, WPing a' o' => Bool.eqb a a' && list_N_eqb o o'
+          | WGoAway l c d, WGoAway l' c' d' => (l =? l') && (c =? c') && list_N_eqb d d'
+          | WWindowUpdate s i, WWindowUpdate s' i' => (s =? s') && (i =? i')
+          | WRstStream s c, WRstStream s' c' => (s =? s') && (c =? c')
+          | _, _ => false
+          end
+      | _ => false
+      end
+  | None =>
+      (* a refusal is legitimate only for a DATA payload above the limit *)
+      match f with FData _ _ _ data => max <? lenN data | _ => false end
+  end.
+
+Definition wire_eqb (w w' : wire_frame) : bool :=
+  match w, w' with
+  | WData s e p d, WData s' e' p' d' => (s =? s') && Bool.eqb e e' && opt_N_eqb p p' && list_N_eqb d d'
+  | WHeaders s e h p b, WHeaders s' e' h' p' b' =>
+      (s =? s') && Bool.eqb e e' && Bool.eqb h h' && list_N_eqb b b'
+      && match p, p' with None, None => true | _, _ => false end
+  | WPushPromise s h pr b, WPushPromise s' h' pr' b' =>
+      (s =? s') && Bool.eqb h h' && (pr =? pr') && list_N_eqb b b'
+  | WSettings a ps, WSettings a' ps' =>
+      Bool.eqb a a' && list_N_eqb (flat_map (fun p => [fst p; snd p]) ps) (flat_map (fun p => [fst p; snd p]) ps')
+  | WPing a o, WPing a' o' => Bool.eqb a a' && list_N_eqb o o'
+  | WGoAway l c d, WGoAway l' c' d' => (l =? l') && (c =? c') && list_N_eqb d d'
+  | WWindowUpdate s i, WWindowUpdate s' i' => (s =? s') && (i =? i')
+  | WRstStream s c, WRstStream s' c' => (s =? s') && (c =? c')
+  | _, _ => false
+  end.
+
+(* the complete logical frames at the front of a frame sequence (a trailing open block is dropped);
+   None when the CONTINUATION discipline is broken *)
+Fixpoint reassemble_prefix (cur : option open_block) (ws : list wire_frame) : option (list wire_frame) :=
+  match ws with
+  | [] => Some []
+  | w :: ws' =>
+      match cur with
+      | Some o =>
+          match w with
+          | WContinuation s eh frag =>
+              if s =? open_stream o then
+                if eh then option_map (cons (open_close (open_extend o frag))) (reassemble_prefix None ws')
+                else reassemble_prefix (Some (open_extend o frag)) ws'
+              else None
+          | _ => None
+          end
+      | None =>
+          match w with
+          | WContinuation _ _ _ => None
+          | WHeaders s es false p frag => reassemble_prefix (Some (OpenHeaders s es p frag)) ws'
+          | WPushPromise s false pr frag => reassemble_prefix (Some (OpenPush s pr frag)) ws'
+          | WUnknown _ _ _ _ => None
+          | _ => option_map (cons w) (reassemble_prefix None ws')
+          end
+      end
+  end.
+
+Fixpoint wires_prefix (a b : list wire_frame) : bool :=
+  match a, b with
+  | [], _ => true
+  | x :: a', y :: b' => wire_eqb x y && wires_prefix a' b'
+  | _, _ => false
+  end.
+
+Fixpoint expected_wires (ops : list op) (iobs : list N) : list wire_frame :=
+  match ops, iobs with
+  | OpBuffer f :: ops', o :: iobs' =>
+      if o =? 20 then wire_value_of f :: expected_wires ops' iobs' else expected_wires ops' iobs'
+  | _ :: ops', _ :: iobs' => expected_wires ops' iobs'
+  | _, _ => []
+  end.
+
+Fixpoint last_N (l : list N) (d : N) : N :=
+  match l with [] => d | [x] => x | _ :: l' => last_N l' d end.
+
+(* case: (vectored, max, ops, script, implementation observations, implementation writes) *)
+Definition oracle_write (c : bool * N * list op * list titem * list N * list (list N)) : bool :=
+  let '(_, max, ops, _, iobs, iwrites) := c in
+  let bytes := concat iwrites in
+  let (frames, tail) := rfc_frames bytes in
+  let expected := expected_wires ops iobs in
+  match rfc_parse_all max frames with
+  | None => false                                            (* something unparsable was written *)
+  | Some ws =>
+      forallb (fun fr => match declared_length fr with Some l => l <=? max | None => false end) frames
+      && match reassemble_prefix None ws with
+         | None => false
+         | Some logical =>
+             wires_prefix logical expected
+             && (if last_N iobs 0 =? 10                      (* the run ended with a flush that returned Ready *)
+                 then (lenN tail =? 0) && (N.of_nat (length logical) =? N.of_nat (length expected))
+                 else true)
+         end
+  end.
